@@ -46,6 +46,10 @@ JudgeOut(e) ==
 
 Judge(e) ==
     IF e.ev = "Marshal" THEN JudgeOut(e)
+    ELSE IF e.fmt = "ReadCd" THEN
+         (IF ~Ok_ReadCd(e.bytes, e.par) THEN {<<"Unjudged", "layout not covered">>}
+          ELSE IF e.exc # "" THEN {<<"DecodesWithoutError", e.exc>>}
+          ELSE JudgeP(e, P_ReadCd(e.bytes, e.par)))
     ELSE IF e.fmt \notin Formats THEN {<<"UnknownFormat", e.fmt>>}
     ELSE IF ~Okay(e.fmt, e.bytes) THEN {<<"Unjudged", "not well-formed">>}
     ELSE IF e.exc # "" THEN {<<"DecodesWithoutError", e.exc>>}
